@@ -31,6 +31,14 @@ Theorem C02_parse_depth : forall bs, fits bs -> 28 * depth_reached (unflatten_i 
 Proof. exact parse_depth_proof. Qed.
 Print Assumptions C02_parse_depth.
 
+(* allocation is linear in the input: at most KA = 128 bytes of requests (in the model's units: sizeof-based object,
+   table, queue and buffer requests) per byte of the buffer, plus C = 0, whatever counts and lengths the bytes declare *)
+Theorem C02_parse_alloc_linear : forall bs, fits bs -> allocated (unflatten_i bs fixed) <= KA * len bs.
+Proof. exact parse_alloc_linear_proof. Qed.
+Print Assumptions C02_parse_alloc_linear.
+Example C02_KA_is_128 : KA = 128.
+Proof. reflexivity. Qed.
+
 (* the reader never ends beyond the buffer *)
 Theorem C02_parse_consumed : forall bs, fits bs -> consumed (unflatten_i bs fixed) <= len bs.
 Proof. exact parse_consumed_proof. Qed.
